@@ -30,6 +30,7 @@ import (
 	"github.com/aergoio/aergo/v2/state/statedb"
 	"github.com/aergoio/aergo/v2/types"
 	"github.com/aergoio/aergo/v2/types/dbkey"
+	"github.com/aergoio/aergo/v2/types/message"
 	"github.com/aergoio/aergo/v2/zz_verif/vh"
 	"github.com/rs/zerolog"
 )
@@ -42,8 +43,10 @@ type sblock struct {
 	parent int // id of the parent (0 for genesis)
 	no     uint64
 	txs    []int // tx ids
-	root   int   // root id
+	root   int   // root id (of the state root the header claims)
 	nonces [naccounts]uint64
+	bad    bool   // the header's state root is not the one execution reaches: executeBlock fails on this block
+	real   []byte // the state root execution of this block reaches
 }
 
 type scenario struct {
@@ -55,13 +58,14 @@ type scenario struct {
 	rootB  [][]byte
 	order  []int // feed order (block ids)
 	maxNo  uint64
+	hasBad bool // some block of the scenario does not execute
 }
 
 func newScenario(w *world, name string) *scenario {
 	sc := &scenario{name: name, w: w, byHash: map[string]*sblock{}, roots: map[string]int{}, rootB: [][]byte{nil}}
 	sc.blocks = []*sblock{nil}
 	g := w.prod.gen
-	sc.add(&sblock{blk: g, parent: 0, no: 0})
+	sc.add(&sblock{blk: g, parent: 0, no: 0, real: cp(g.GetHeader().GetBlocksRootHash())})
 	return sc
 }
 
@@ -86,9 +90,15 @@ func (sc *scenario) add(b *sblock) *sblock {
 }
 
 // child builds a block on parent with ntx transfers; `want` lists specs to include first (shared txs).
-func (sc *scenario) child(parent *sblock, specs []txSpec) *sblock {
-	blk := sc.w.prod.build(parent.blk, specs)
-	b := &sblock{blk: blk, parent: parent.id, no: parent.no + 1, nonces: parent.nonces}
+func (sc *scenario) child(parent *sblock, specs []txSpec) *sblock { return sc.childX(parent, specs, false) }
+
+// childX: bad = the block's header claims a state root its execution does not reach.
+func (sc *scenario) childX(parent *sblock, specs []txSpec, bad bool) *sblock {
+	blk, real := sc.w.prod.build(parent.blk, parent.real, specs, bad)
+	b := &sblock{blk: blk, parent: parent.id, no: parent.no + 1, nonces: parent.nonces, bad: bad, real: real}
+	if bad {
+		sc.hasBad = true
+	}
 	for _, s := range specs {
 		b.nonces[s.from]++
 		if b.nonces[s.from] != s.nonce {
@@ -153,7 +163,11 @@ func (sc *scenario) feedLine(b *sblock) string {
 		}
 		t = strings.Join(s, ",")
 	}
-	return fmt.Sprintf("feed %d %d %d %d %s", b.id, b.parent, b.no, b.root, t)
+	op := "feed"
+	if b.bad {
+		op = "feedx"
+	}
+	return fmt.Sprintf("%s %d %d %d %d %s", op, b.id, b.parent, b.no, b.root, t)
 }
 
 // ---------------------------------------------------------------- journal → canonical text
@@ -464,7 +478,11 @@ type session struct {
 	allowedB  []int  // per prefix k: next tip
 	window    []bool // per prefix k: the triggering block of a reorganisation is stored, its marker is not yet
 	crashes   int
+	reorgs    []reorgSpan // the reorganising arrivals of the journal
 }
+
+// reorgSpan: units [from,to) of one arrival; m = index of its marker write, d = index of its marker deletion.
+type reorgSpan struct{ from, to, m, d int }
 
 func (s *session) op(line, out string, nontrivial bool) {
 	s.ops = append(s.ops, line+" => "+out)
@@ -587,7 +605,7 @@ func (s *session) prepare(rng *vh.Rng) bool {
 	}
 	ok := true
 	for _, id := range sc.order {
-		if _, err := n.cs.GetBlock(sc.blocks[id].blk.BlockHash()); err != nil {
+		if _, err := n.cs.GetBlock(sc.blocks[id].blk.BlockHash()); err != nil && !sc.hasBad {
 			ok = false
 		}
 	}
@@ -711,6 +729,16 @@ func (s *session) record() {
 			if strings.HasPrefix(t, "C.tx[+blk:") && !strings.Contains(t, ",") {
 				s0 = i
 			}
+		}
+		d0 := -1
+		for i := m0 + 1; i < sp.to; i++ {
+			if _, t := sc.canon(s.J[i]); t == "C.tx[-marker]" {
+				d0 = i
+				break
+			}
+		}
+		if d0 > m0 {
+			s.reorgs = append(s.reorgs, reorgSpan{sp.from, sp.to, m0, d0})
 		}
 		if s0 < 0 {
 			continue
